@@ -41,7 +41,7 @@ func (s *memMetaStore) Put(ctx context.Context, p peer.ID, v []byte) error {
 
 const (
 	c12RawKinds     = 12
-	c12HostileKinds = 36
+	c12HostileKinds = 37
 )
 
 func genC12(seed uint64, tier string) *Plan {
